@@ -104,8 +104,15 @@ def c03(c):
     return c.finish()
 
 
+def splan(c):
+    plan, n = gen_session_plan(num=scale(c.tier, 40, 600))
+    for b in ("ark", "min"):
+        replay_session_plan(c, b, plan)
+
+
 def c04(c):
     build_both()
+    splan(c)
     c.mc(toy_cfgs(["pair", "point"], c.tier) + session_cfgs(c.tier))
     for b in ("ark", "min"):
         c.trace(b, "forms", 1)
@@ -116,6 +123,7 @@ def c04(c):
 
 def c05(c):
     build_both()
+    splan(c)
     c.mc(toy_cfgs(["scalar"], c.tier, quick=[13, 17, 29, 41]))
     for b in ("ark", "min"):
         c.trace(b, "mulforms", scale(c.tier, 6, 1))
@@ -140,6 +148,7 @@ def c07(c):
 
 def c08(c):
     build_both()
+    splan(c)
     c.mc(toy_cfgs(["pair"], c.tier) + session_cfgs(c.tier))
     for b in ("ark", "min"):
         c.trace(b, "obs", scale(c.tier, 2, 30))
@@ -305,8 +314,18 @@ def c15(c):
 def c16(c):
     build("ark")
     # one TLC run per trace: the observation tables must span the whole history
-    for i in range(scale(c.tier, 2, 12)):
-        c.trace("ark", "bls", scale(c.tier, 60, 400), module="Pairing.tla", cfg="cfg/Pairing.cfg", nchunks=1, sd=seed() * 100 + i)
+    pts = os.path.join(WORK, "g1pts.ndjson")
+    r = subprocess.run([sys.executable, os.path.join(VERIF, "tools", "g1_points.py"), pts, str(scale(c.tier, 40, 2000)), str(seed())],
+                       capture_output=True, text=True)
+    if r.returncode != 0:
+        raise ToolError("g1_points.py failed: " + r.stderr[-1000:])
+    c.notes.append("G1 points with y at distance t from (p-1)/2, 0, p-1 (cube roots found over Fp): " + r.stdout.strip())
+    c.trace("ark", "blspts", 0, pts, module="Pairing.tla", cfg="cfg/Pairing.cfg")
+    # several traces validated concurrently, each by ONE TLC run (the tables are state)
+    runs = scale(c.tier, 3, 32)
+    traces = [record("ark", "bls", scale(c.tier, 60, 100), "", seed() * 100 + i) for i in range(runs)]
+    with ThreadPoolExecutor(min(runs, NCPU)) as ex:
+        list(ex.map(lambda t: c.validate_lines(t[1], "ark_bls_%d" % t[0], "Pairing.tla", "cfg/Pairing.cfg", None, "ark", 1), enumerate(traces)))
     return c.finish(rule="distinct (event kind, group) combinations; every event compares the crate's engine with the "
                          "reference engine byte for byte and against the exponent-group model",
                     assumptions=["the reference engine ark-bls12-377 0.4 is the oracle for byte-level outputs (the pairing "
